@@ -82,6 +82,19 @@ impl Monitor for C05 {
                 }
             }
         }
+        let key_choices: Vec<&str> = ["k", "g", "i", "r", "b", "s", "ts", "iv"].into_iter().filter(|c| t.schema.ty_of(c).is_some() && u.schema.ty_of(c).is_some()).collect();
+        let key = *rng.pick(&key_choices);
+        // a column whose name differs from the join column only in letter case, defined BEFORE it and holding other values
+        // (JSON flavour: the extra field needs no change of the line pattern)
+        for tab in [&mut t, &mut u] {
+            if tab.json && rng.chance(1, 4) {
+                let at = tab.schema.cols.iter().position(|(n, _)| n == key).unwrap_or(0);
+                let ty = tab.schema.cols[at].1.clone();
+                let twin = key.to_uppercase();
+                tab.schema.cols.insert(at, (twin.clone(), ty.clone()));
+                tab.spec.cols.insert(at, ColSpec { name: twin.clone(), ty: ty.clone(), src: Src::Json(vec![JsonStep::Field(twin)]), modifier: if matches!(ty, Ty::Ts | Ty::Iv) { Modifier::Convert } else { Modifier::None } });
+            }
+        }
         let dct = DataCfg { keys: 1 + rng.below(3), ..DataCfg::random(rng, t.schema.cols.len(), false) };
         let dcu = DataCfg { keys: 1 + rng.below(3), ..DataCfg::random(rng, u.schema.cols.len(), false) };
         let nt = rng.below(13); let nu = rng.below(13);
@@ -91,8 +104,6 @@ impl Monitor for C05 {
         for lines in [&mut tl, &mut ul] {
             if !lines.is_empty() && rng.chance(1, 2) { for _ in 0..(1 + rng.below(3)) { let l = lines[rng.below(lines.len())].clone(); let at = rng.below(lines.len() + 1); lines.insert(at, l); } }
         }
-        let key_choices: Vec<&str> = ["k", "g", "i", "r", "b", "s", "ts", "iv"].into_iter().filter(|c| t.schema.ty_of(c).is_some() && u.schema.ty_of(c).is_some()).collect();
-        let key = *rng.pick(&key_choices);
         // statement over the virtual pre-joined schema
         let mut jcols: Vec<(String, Ty)> = t.schema.cols.iter().map(|(n, ty)| (format!("t_{}", n), ty.clone())).collect();
         jcols.extend(u.schema.cols.iter().map(|(n, ty)| (format!("u_{}", n), ty.clone())));
